@@ -442,6 +442,72 @@ Proof.
     rewrite app_assoc, prefixb_app, skipn_app_len. reflexivity.
 Qed.
 
+(* the same for every root (relative ones too) that does not clean to "." *)
+Lemma trim_clean : forall root, cstack (is_rooted root) root <> [] -> trim_slash (clean root) = clean root.
+Proof.
+  intros root Hst. rewrite clean_eq. set (r := is_rooted root) in *.
+  destruct (cstack r root) as [|top st] eqn:Est; [congruence|].
+  destruct (join_slash_last (rev (top :: st))) as [a [c [E Hc]]].
+  - cbn. destruct (rev st); discriminate.
+  - apply Forall_rev. rewrite <- Est. apply cstack_elem_ok.
+  - unfold render. destruct r.
+    + rewrite E. change (slash :: a ++ [c]) with ((slash :: a) ++ [c]). apply trim_slash_last. exact Hc.
+    + destruct (rev (top :: st)) eqn:Er; [cbn in Er; destruct (rev st); discriminate|].
+      rewrite E. apply trim_slash_last. exact Hc.
+Qed.
+
+Definition ident_root_ok (root : str) : bool := negb (str_eqb (clean root) [dot]).
+
+Theorem roundtrip_ident_any_root : forall root name,
+  ident_root_ok root = true -> valid_ident_name name = true ->
+  exists bp, roundtrip SIdent root name = (Ok bp, Ok name).
+Proof.
+  intros root name Hok Hv.
+  destruct (is_rooted root) eqn:Hr; [apply roundtrip_ident_abs_root; assumption|].
+  unfold valid_ident_name in Hv. pose proof (normal_path_nonnil _ Hv) as Hn0.
+  assert (Hst : cstack (is_rooted root) root <> []).
+  { intro E. unfold ident_root_ok in Hok. rewrite clean_eq, Hr in Hok. rewrite Hr in E. rewrite E in Hok. discriminate. }
+  assert (Hroot0 : root <> []).
+  { intro; subst. apply Hst. reflexivity. }
+  unfold roundtrip, blob_path. eexists. f_equal.
+  unfold name_from_path, name_from_path_ident.
+  rewrite join_two_nonnil by assumption. rewrite <- clean_clean_app by exact Hroot0.
+  rewrite clean_app_normal by assumption. rewrite trim_clean by exact Hst.
+  change (clean root ++ slash :: name) with (clean root ++ [slash] ++ name).
+  rewrite app_assoc, prefixb_app, skipn_app_len. reflexivity.
+Qed.
+
+(* what NameFromBlobPath returns is what followed the cleaned root *)
+Theorem ident_extract_sound : forall root bp n,
+  name_from_path_ident root bp = Ok n -> bp = trim_slash (clean root) ++ slash :: n.
+Proof.
+  intros root bp n H. unfold name_from_path_ident in H.
+  set (pre := trim_slash (clean root) ++ [slash]) in *.
+  destruct (prefixb pre bp) eqn:Hp; [|discriminate]. inversion H; subst n.
+  assert (G : forall p s, prefixb p s = true -> s = p ++ skipn (length p) s).
+  { induction p as [|x p IH]; intros s Hs; [reflexivity|]. destruct s as [|y s]; [discriminate|].
+    cbn in Hs. apply andb_true_iff in Hs as [Hx Hs]. apply N.eqb_eq in Hx; subst. cbn. f_equal. apply IH. exact Hs. }
+  rewrite (G _ _ Hp) at 1. unfold pre. rewrite <- app_assoc. reflexivity.
+Qed.
+
+(* the fixed code never panics (the pinned code does: unquoted_root_panic_refuted) *)
+Theorem no_panic : forall sch root name bp,
+  blob_path sch root name <> Panic /\ name_from_path sch root bp <> Panic.
+Proof.
+  intros sch root name bp. split.
+  - destruct sch; unfold blob_path.
+    + rewrite tag_sep_colon. destruct (split_on colon name) as [|a [|b [|c l]]]; try discriminate.
+      destruct (is_nil a), (is_nil b); discriminate.
+    + destruct (Nat.leb (length name) 2); discriminate.
+    + discriminate.
+  - destruct sch; unfold name_from_path.
+    + unfold name_from_path_tag, rx_extract. rewrite (compile_quoted _ _ _ tag_re_compiles tag_re_head).
+      destruct (find_from _ bp) as [[w caps]|]; [destruct (Nat.eqb (length caps) 2)|]; discriminate.
+    + unfold name_from_path_blob, rx_extract. rewrite (compile_quoted _ _ _ blob_re_compiles blob_re_head).
+      destruct (find_from _ bp) as [[w caps]|]; [destruct (Nat.eqb (length caps) 1)|]; discriminate.
+    + unfold name_from_path_ident. destruct (prefixb _ bp); discriminate.
+Qed.
+
 (* ================================================================== H. the property, all schemes *)
 
 Theorem roundtrip_all : forall sch root name,
